@@ -624,7 +624,7 @@ func (ex *Exec) applyContract(fr *Frame, c *FuncContract, callee *ssa.Function, 
 			ex.checkImplements(fr, r, args, pnames, st)
 			continue
 		}
-		if len(r.Scope) > 0 && !ex.inScope(fr, r.Scope) {
+		if len(r.Scope) > 0 && ex.inScope(fr, r.Scope) == r.Outside {
 			continue
 		}
 		env.goal = true
@@ -692,6 +692,10 @@ func (ex *Exec) applyContract(fr *Frame, c *FuncContract, callee *ssa.Function, 
 	ex.bindResults(post, sig, callee, res)
 	for _, e := range c.Ensures {
 		if isImplements(e.Expr) {
+			continue
+		}
+		if strings.Contains(e.Text, "local(") {
+			// a clause about the callee's own locals at its return: proved on the callee, says nothing to a caller
 			continue
 		}
 		f := post.Bool(e.Expr)
